@@ -155,6 +155,8 @@ def model_jobs(rng, n):
             m.space["bc"] = (True, True, rng.random() < 0.5)
         elif mode == 1:    # graphs with isolated nodes, self-loops and parallel edges
             m = rd_model.random_model(rng, graph=True, multigraph=True, max_cells=4)
+        elif k % 8 == 2:   # sizes beyond the small ones: many reaction channels, species, cells, neighbours
+            m = rd_model.large_model(rng, graph=bool((k // 8) % 2))
         else:
             m = rd_model.random_model(rng, max_cells=4)
         engine = H.KINDS[k % 3]
